@@ -457,6 +457,27 @@ void vector_cases(ivec const &v, int const k)
     row0 += b;
     r.k("r", vj_(m2.get_unsafe(0))).end();
   }
+  {
+    // both operands are rows of the same matrix
+    auto m2(mk_mat<2, N>(v, 0));
+    auto row0(m2.get_unsafe(0));
+    Rec r("add_assign");
+    r.ks("k", "vector").ks("st", "view,view(same matrix)").k("a", aj).k("b", bj).begin();
+    row0 += m2.get_unsafe(1);
+    r.k("r", vj_(m2.get_unsafe(0))).end();
+    Rec r2("copy");
+    r2.ks("k", "vector").ks("st", "untouched row").k("a", bj).begin();
+    fm::vector::static_<int, N> const other(m2.get_unsafe(1));
+    r2.k("r", vj_(other)).end();
+  }
+  {
+    auto m2(mk_mat<2, N>(v, 0));
+    auto row0(m2.get_unsafe(0));
+    Rec r("sub_assign");
+    r.ks("k", "vector").ks("st", "view,self").k("a", aj).k("b", aj).begin();
+    row0 -= row0;
+    r.k("r", vj_(m2.get_unsafe(0))).end();
+  }
   // dims: same component-wise operations
   auto const da(mk_dim<N>(v, 0));
   auto const db(mk_dim<N>(v, N));
@@ -974,7 +995,7 @@ void part_matrices(vj::Rng &rng, bool const thorough)
   identity_case<2>();
   identity_case<3>();
   identity_case<4>();
-  unsigned const n = thorough ? 8000U : 600U;
+  unsigned const n = thorough ? 6000U : 600U;
   for (unsigned i = 0; i < n; ++i)
   {
     int const k = static_cast<int>(rng.range(-9, 9));
@@ -1068,7 +1089,7 @@ void part_vectors(vj::Rng &rng, bool const thorough)
       vector_builders<3>(x, x - 1, c1);
       vector_builders<4>(x, 2 * x, c1);
     }
-  unsigned const n = thorough ? 5000U : 400U;
+  unsigned const n = thorough ? 4000U : 400U;
   for (unsigned i = 0; i < n; ++i)
   {
     int const k = static_cast<int>(rng.range(-9, 9));
